@@ -441,6 +441,13 @@ def ERel {α : Type} (R : α → α → Prop) : Except CDiag α → Except CDiag
 
 def NoD : SymKey → Prop := fun _ => False
 
+theorem ERel.bind {α β : Type} {R : α → α → Prop} {R' : β → β → Prop} {x y : Except CDiag α}
+    {f g : α → Except CDiag β} (h : ERel R x y) (hf : ∀ a b, R a b → ERel R' (f a) (g b)) :
+    ERel R' (x >>= f) (y >>= g) := by
+  cases x <;> cases y <;> simp only [ERel] at h
+  · subst h; show ERel R' (Except.error _) (Except.error _); simp only [ERel]
+  · exact hf _ _ h
+
 theorem ERel.imp {α : Type} {R R' : α → α → Prop} {x y : Except CDiag α} (h : ERel R x y) (hi : ∀ a b, R a b → R' a b) :
     ERel R' x y := by
   cases x <;> cases y <;> simp only [ERel] at h ⊢
@@ -1073,5 +1080,258 @@ theorem cgProc_rel {names : String → List String → Prop} (i : Nat) (p : APro
         obtain ⟨c1, c2, c3⟩ := cgLocalVars_rel (names := names) p.name p.locals tbl2a tbl2b gs2
           (hT2.mono (fun k hk => absurd hk id)) i2
         exact ⟨c2, c3, c1, h.go, by simp only; rw [h.frames], by simp only; rw [h.instrs]⟩
+
+theorem cgProcs_rel {names : String → List String → Prop} : ∀ (ps : List AProc) (i : Nat) (st1 st2 : CGState),
+    SRel names st1 st2 →
+    (∀ p ∈ ps, ∀ ns, names p.name ns → ns = p.formals.map X.Formal.name ++ p.locals.map ADecl.name) →
+    ERel (SRel names) (cgProcs ps i st1) (cgProcs ps i st2) := by
+  intro ps
+  induction ps with
+  | nil => intro i st1 st2 h _; exact h
+  | cons p ps ih =>
+    intro i st1 st2 h hlink
+    unfold cgProcs
+    have hp := cgProc_rel i p st1 st2 h (by
+      intro n hpres hne
+      obtain ⟨ns, hns, hn⟩ := h.inv.local_ (p.name, n) hpres hne
+      rw [hlink p (by simp) ns hns] at hn
+      exact hn)
+    exact hp.bind (fun a b hab => ih (i + 1) a b hab (fun q hq => hlink q (List.mem_cons_of_mem _ hq)))
+
+/-- What `LowerDirectives` reads of two generator outputs. -/
+structure ORel (cg1 cg2 : CGOut) : Prop where
+  instrs : cg1.instrs = cg2.instrs
+  data : cg1.data = cg2.data
+  frames : cg1.frames = cg2.frames
+  go : cg1.globalsOffset = cg2.globalsOffset
+  tbl : TRel NoD cg1.tbl cg2.tbl
+
+theorem codeGen_rel {names : String → List String → Prop} (t1 t2 : SymTab) (A : AProgram) (hT : TRel NoD t1 t2)
+    (hI : TblInv names t1)
+    (hlink : ∀ p ∈ A.procs, ∀ ns, names p.name ns → ns = p.formals.map X.Formal.name ++ p.locals.map ADecl.name) :
+    ERel ORel (codeGen t1 A) (codeGen t2 A) := by
+  unfold codeGen
+  have h0 : SRel names { tbl := t1, instrs := startStub } { tbl := t2, instrs := startStub } :=
+    ⟨hT, hI, rfl, rfl, rfl, rfl⟩
+  refine (cgGlobals_rel A.globals _ _ h0).bind (fun s1 s2 hg => ?_)
+  refine (cgProcs_rel A.procs 0 s1 s2 hg hlink).bind (fun u1 u2 hp => ?_)
+  exact ⟨hp.instrs, by simp only; rw [hp.gs], hp.frames, hp.go, hp.tbl⟩
+
+theorem lowerOne_rel (cg1 cg2 : CGOut) (h : ORel cg1 cg2) (d : IDir) : lowerOne cg1 d = lowerOne cg2 d := by
+  have hfr : ∀ i, frameOf cg1 i = frameOf cg2 i := fun i => by unfold frameOf; rw [h.frames]
+  cases d with
+  | dir x => rfl
+  | spValue => simp only [lowerOne, h.data, h.go]
+  | fb k f o => simp only [lowerOne, hfr]
+  | prologue name =>
+    simp only [lowerOne]
+    have hd := h.tbl.dom ("", name)
+    cases h1 : cg1.tbl.find? ("", name) with
+    | none =>
+      cases h2 : cg2.tbl.find? ("", name) with
+      | none => rfl
+      | some b => rw [h1, h2] at hd; simp at hd
+    | some a =>
+      cases h2 : cg2.tbl.find? ("", name) with
+      | none => rw [h1, h2] at hd; simp at hd
+      | some b =>
+        obtain ⟨hs, _⟩ := h.tbl.rel _ a b h1 h2
+        simp only [hs.1, hs.2.2.2.2.2.1, hfr]
+  | epilogue name =>
+    simp only [lowerOne]
+    have hd := h.tbl.dom ("", name)
+    cases h1 : cg1.tbl.find? ("", name) with
+    | none =>
+      cases h2 : cg2.tbl.find? ("", name) with
+      | none => rfl
+      | some b => rw [h1, h2] at hd; simp at hd
+    | some a =>
+      cases h2 : cg2.tbl.find? ("", name) with
+      | none => rw [h1, h2] at hd; simp at hd
+      | some b =>
+        obtain ⟨hs, _⟩ := h.tbl.rel _ a b h1 h2
+        simp only [hs.1, hs.2.2.2.2.2.1, hfr]
+
+theorem lowerCode_rel (cg1 cg2 : CGOut) (h : ORel cg1 cg2) : ∀ (c : Code), lowerCode cg1 c = lowerCode cg2 c := by
+  intro c
+  induction c with
+  | nil => rfl
+  | cons d ds ih => simp only [lowerCode, lowerOne_rel cg1 cg2 h, ih]
+
+theorem lower_rel (cg1 cg2 : CGOut) (h : ORel cg1 cg2) : lower cg1 = lower cg2 := by
+  unfold lower
+  rw [h.instrs]
+  exact lowerCode_rel cg1 cg2 h _
+
+/-! ### The whole front half -/
+
+theorem cpDecls_names (tbl : SymTab) (scope : String) (mk : Nat → NodeRef) : ∀ (ds : List X.Decl) (i : Nat) (st : CPState)
+    (ds' : List ADecl) (st' : CPState), cpDecls tbl scope mk ds i st = .ok (ds', st') →
+    ds'.map ADecl.name = ds.map X.Decl.name := by
+  intro ds
+  induction ds with
+  | nil =>
+    intro i st ds' st' h
+    simp only [cpDecls, pure, Except.pure, Except.ok.injEq, Prod.mk.injEq] at h
+    rw [← h.1]; rfl
+  | cons d ds ih =>
+    intro i st ds' st' h
+    unfold cpDecls at h
+    cases d with
+    | var n =>
+      simp only [bind, Except.bind, pure, Except.pure] at h
+      split at h
+      · simp at h
+      · rename_i w hw
+        simp only [Except.ok.injEq, Prod.mk.injEq] at h
+        rw [← h.1]
+        simp only [List.map_cons, ih _ _ _ _ hw]
+        rfl
+    | val n e =>
+      simp only [bind, Except.bind, pure, Except.pure] at h
+      split at h
+      · simp at h
+      · split at h
+        · simp at h
+        · split at h
+          · simp at h
+          · rename_i w hw
+            simp only [Except.ok.injEq, Prod.mk.injEq] at h
+            rw [← h.1]
+            simp only [List.map_cons, ih _ _ _ _ hw]
+            rfl
+    | array n e =>
+      simp only [bind, Except.bind, pure, Except.pure] at h
+      split at h
+      · simp at h
+      · split at h
+        · simp at h
+        · rename_i w hw
+          simp only [Except.ok.injEq, Prod.mk.injEq] at h
+          rw [← h.1]
+          simp only [List.map_cons, ih _ _ _ _ hw]
+          rfl
+
+/-- Name, formals and declared names of a procedure survive `ConstProp`. -/
+theorem cpProcs_sig (tbl : SymTab) : ∀ (ps : List X.Proc) (i : Nat) (st : CPState) (ps' : List AProc),
+    cpProcs tbl ps i st = .ok ps' →
+    ∀ p' ∈ ps', ∃ p ∈ ps, p'.name = p.name ∧ p'.formals = p.formals ∧ p'.locals.map ADecl.name = p.locals.map X.Decl.name := by
+  intro ps
+  induction ps with
+  | nil =>
+    intro i st ps' h
+    simp only [cpProcs, pure, Except.pure, Except.ok.injEq] at h
+    subst h
+    intro p' hp'; simp at hp'
+  | cons p ps ih =>
+    intro i st ps' h
+    unfold cpProcs at h
+    simp only [bind, Except.bind] at h
+    split at h
+    · simp at h
+    · rename_i v hv
+      obtain ⟨locals, st2⟩ := v
+      simp only at h
+      split at h
+      · simp at h
+      · rename_i body hb
+        split at h
+        · simp at h
+        · rename_i rest hr
+          simp only [pure, Except.pure, Except.ok.injEq] at h
+          subst h
+          intro p' hp'
+          rcases List.mem_cons.mp hp' with rfl | hp'
+          · exact ⟨p, by simp, rfl, rfl, cpDecls_names _ _ _ _ _ _ _ _ hv⟩
+          · obtain ⟨q, hq, hsig⟩ := ih _ _ _ hr p' hp'
+            exact ⟨q, List.mem_cons_of_mem _ hq, hsig⟩
+
+theorem optDecl_name (d : ADecl) : (optDecl d).name = d.name := by cases d <;> rfl
+
+theorem nodup_map_inj {α β : Type} (f : α → β) : ∀ (l : List α), (l.map f).Nodup → ∀ a ∈ l, ∀ b ∈ l, f a = f b → a = b := by
+  intro l
+  induction l with
+  | nil => intro _ a ha; simp at ha
+  | cons x xs ih =>
+    intro h a ha b hb hab
+    simp only [List.map_cons, List.nodup_cons, List.mem_map, not_exists, not_and] at h
+    rcases List.mem_cons.mp ha with ha' | ha' <;> rcases List.mem_cons.mp hb with hb' | hb'
+    · rw [ha', hb']
+    · subst ha'; exact absurd hab.symm (h.1 b hb')
+    · subst hb'; exact absurd hab (h.1 a ha')
+    · exact ih h.2 a ha' b hb' hab
+
+/-- **C11, compile stage.**  For a program whose procedure names are distinct (any other program is
+    rejected with `RedeclaredSymbolError`), everything the front half of the compiler produces -
+    intermediate code, data, frames, the lowered and the optimised directive lists, or the
+    diagnostic - is the same for any two contents of the uninitialised `Symbol::stackOffset`s. -/
+theorem stagesJ_indep (j1 j2 : Int) (P : X.Program) (hnd : (P.procs.map (·.name)).Nodup) :
+    ERel (fun s1 s2 => ORel s1.cg s2.cg ∧ s1.lowered = s2.lowered ∧ s1.optimised = s2.optimised)
+      (stagesJ j1 P) (stagesJ j2 P) := by
+  unfold stagesJ
+  refine (createSymbols_rel j1 j2 P).bind (fun t1 t2 ⟨hT, hI⟩ => ?_)
+  rw [constProp_rel hT P]
+  cases hcp : constProp t2 P with
+  | error e => simp only [bind, Except.bind, ERel]
+  | ok A =>
+    simp only [bind, Except.bind]
+    have hlink : ∀ p ∈ (optimise A).procs, ∀ ns, (∃ q ∈ P.procs, q.name = p.name ∧ ns = procNames q) →
+        ns = p.formals.map X.Formal.name ++ p.locals.map ADecl.name := by
+      intro p' hp' ns ⟨q, hq, hqn, hns⟩
+      simp only [optimise, List.mem_map] at hp'
+      obtain ⟨p'', hp'', rfl⟩ := hp'
+      unfold constProp at hcp
+      simp only [bind, Except.bind] at hcp
+      split at hcp
+      · simp at hcp
+      · rename_i v hv
+        obtain ⟨globals, st⟩ := v
+        simp only at hcp
+        split at hcp
+        · simp at hcp
+        · rename_i procs hprocs
+          simp only [pure, Except.pure, Except.ok.injEq] at hcp
+          subst hcp
+          obtain ⟨p, hp, h1, h2, h3⟩ := cpProcs_sig _ _ _ _ _ hprocs p'' hp''
+          have hqp : q = p := nodup_map_inj (fun x : X.Proc => x.name) P.procs hnd q hq p hp (by
+            simp only [optProc] at hqn
+            rw [hqn, h1])
+          subst hqp
+          rw [hns]
+          simp only [procNames, optProc, h2, List.map_map]
+          congr 1
+          rw [← h3]
+          apply List.map_congr_left
+          intro d _
+          exact (optDecl_name d).symm
+    have hcg := codeGen_rel t1 t2 (optimise A) hT hI hlink
+    revert hcg
+    cases codeGen t1 (optimise A) <;> cases codeGen t2 (optimise A) <;> simp only [ERel, pure, Except.pure] <;> intro hcg
+    · exact hcg
+    · exact hcg
+    · exact hcg
+    · exact ⟨hcg, lower_rel _ _ hcg, by rw [lower_rel _ _ hcg]⟩
+
+theorem compile_eq_compileJ (P : X.Program) : compile P = compileJ 0 P := by
+  unfold compile compileDirs compileJ stages
+  cases stagesJ 0 P <;> rfl
+
+/-- **C11, compile stage, end to end**: the assembled image (or the diagnostic) does not depend on
+    the content of the uninitialised `Symbol::stackOffset`s. -/
+theorem compileJ_indep (j1 j2 : Int) (P : X.Program) (hnd : (P.procs.map (·.name)).Nodup) :
+    compileJ j1 P = compileJ j2 P := by
+  have h := stagesJ_indep j1 j2 P hnd
+  unfold compileJ
+  revert h
+  cases stagesJ j1 P <;> cases stagesJ j2 P <;> simp only [ERel] <;> intro h
+  · rw [h]
+  · exact h.elim
+  · exact h.elim
+  · simp only [bind, Except.bind]
+    rw [h.2.2]
+
+theorem compileJ_eq_compile (j : Int) (P : X.Program) (hnd : (P.procs.map (·.name)).Nodup) :
+    compileJ j P = compile P := by
+  rw [compile_eq_compileJ]; exact compileJ_indep j 0 P hnd
 
 end Hex.Xcmp
